@@ -1264,17 +1264,23 @@ static void gen_stmt(Node *node) {
     for (Node *n = node->case_next; n; n = n->case_next) {
       char *ax = (node->cond->ty->size == 8) ? "%rax" : "%eax";
       char *di = (node->cond->ty->size == 8) ? "%rdi" : "%edi";
+      char *dx = (node->cond->ty->size == 8) ? "%rdx" : "%edx";
 
+      // Case values may not fit in a 32-bit immediate,
+      // so they are loaded into a register first.
       if (n->begin == n->end) {
-        println("  cmp $%ld, %s", n->begin, ax);
+        println("  mov $%ld, %%rdi", n->begin);
+        println("  cmp %s, %s", di, ax);
         println("  je %s", n->label);
         continue;
       }
 
       // [GNU] Case ranges
       println("  mov %s, %s", ax, di);
-      println("  sub $%ld, %s", n->begin, di);
-      println("  cmp $%ld, %s", n->end - n->begin, di);
+      println("  mov $%ld, %%rdx", n->begin);
+      println("  sub %s, %s", dx, di);
+      println("  mov $%ld, %%rdx", n->end - n->begin);
+      println("  cmp %s, %s", dx, di);
       println("  jbe %s", n->label);
     }
 
